@@ -86,6 +86,7 @@ def flat_prod(parts) -> tuple:
     return ("prod", tuple(out)) if len(out) != 1 else out[0]
 
 
+MODS: dict = {}          # repo-relative path -> loader.Module of the run in progress (for private helper interpretation)
 SPACE_SIZES: dict = {}   # sizes of analysis-specific spaces (registered by the rule that introduces them)
 
 
@@ -322,6 +323,10 @@ class KI:
         self._loopdepth: list = []
         self.pm = parent_map(fn)
         self.unbound: list = []
+        self._comp_calls: dict = {}
+        self.interp_private = False      # opt-in: interpret calls of private same-module helpers that could not be inlined
+        self.callee_env: dict = {}       # private helper name -> (FunctionDef, environment at its return)
+        self._depth = 0
         self.phi_src: dict = {}
         self.vk_join = None              # optional: join of differing value kinds (list -> kind or None)
         self.thresholds: list = []       # (compare node, array value) for `X > 0`-like tests
@@ -378,6 +383,8 @@ class KI:
             elif isinstance(a, Arr) and isinstance(b, Arr) and self.vk_join is not None and a.vk is not None and b.vk is not None \
                     and self.vk_join([a.vk, b.vk]) is not None:
                 out[k] = Arr(self.vk_join([a.vk, b.vk]), a.axes if a.axes == b.axes else None, None, a.flags & b.flags)
+            elif isinstance(a, (Arr, Mask)) and isinstance(b, (Arr, Mask)) and type(a) is not type(b) and a.axes is not None and a.axes == b.axes:
+                out[k] = Arr(None, a.axes, None, frozenset({"bool"}))   # an indicator array re-bound to a comparison result
             elif isinstance(a, ListV) and isinstance(b, ListV):
                 out[k] = b
             elif isinstance(a, Int) and isinstance(b, Int):
@@ -676,6 +683,8 @@ class KI:
         if isinstance(e, ast.Name):
             if e.id not in self.env and e.id in self.locals_:
                 self.unbound.append(e)
+            if e.id not in self.env and e.id not in self.locals_:
+                return self.module_constant(e.id)
             return self.env.get(e.id)
         if isinstance(e, ast.Constant):
             if isinstance(e.value, bool):
@@ -731,8 +740,11 @@ class KI:
             return self.ev_call(e)
         if isinstance(e, ast.IfExp):
             self.truth_use(e.test)
+            dec = self.decide(e.test)
+            if dec is not None:
+                return self.ev(e.body if dec else e.orelse)
             a, b = self.ev(e.body), self.ev(e.orelse)
-            return a if a == b else None
+            return a if a == b else self.join({"ifexp": a}, {"ifexp": b}, e).get("ifexp")
         if isinstance(e, (ast.ListComp, ast.GeneratorExp)):
             return self.ev_comp(e)
         if isinstance(e, ast.JoinedStr):
@@ -741,14 +753,57 @@ class KI:
             return self.ev(e.value)
         return None
 
+    def module_constant(self, name: str):
+        """value of a module-level name bound once to a literal tuple/list/number"""
+        mod = MODS.get(self.where.split(":")[0])
+        if mod is None:
+            return None
+        hits = [st for st in mod.tree.body if (isinstance(st, ast.Assign) and any(isinstance(t, ast.Name) and t.id == name for t in st.targets))
+                or (isinstance(st, ast.AnnAssign) and isinstance(st.target, ast.Name) and st.target.id == name and st.value is not None)]
+        if len(hits) != 1:
+            return None
+        v = hits[0].value
+        try:
+            ast.literal_eval(v)
+        except Exception:
+            return None
+        return self.ev(v)
+
     def ev_comp(self, e) -> Any:
         saved = dict(self.env)
-        for g in e.generators:
-            self.ev(g.iter)
-            self.bind(g.target, None, e, None)  # type: ignore[arg-type]
+        sym = None
+        if len(e.generators) == 1 and not e.generators[0].ifs and isinstance(e.generators[0].target, ast.Name) \
+                and isinstance(e.generators[0].iter, ast.Call) and call_name(e.generators[0].iter) == "range" and len(e.generators[0].iter.args) == 1:
+            n = self.ev(e.generators[0].iter.args[0])
+            if isinstance(n, Int):
+                sym = S(f"k_{e.generators[0].target.id}{self.site(e)}")
+                self.loops[sym] = (sp.Integer(0), n.p, e)
+                kind = None
+                for K in "CFN":
+                    for G in self._grids_known():
+                        if _z(n.p - n_of(G, K)):
+                            kind = self.sp_of(G, K)
+                self.env[e.generators[0].target.id] = Int(sym, kind)
+        if sym is None and len(e.generators) == 1 and not e.generators[0].ifs and isinstance(e.generators[0].target, ast.Name):
+            seqv = self.ev(e.generators[0].iter)
+            if isinstance(seqv, Arr) and seqv.axes is not None and len(seqv.axes) == 1 and isinstance(seqv.axes[0], tuple) \
+                    and seqv.axes[0][0] == "pos":
+                sym = S(f"k_el{self.site(e)}")
+                self.loops[sym] = (sp.Integer(0), size_of(seqv.axes[0]), e)
+                self.env[e.generators[0].target.id] = Opaque("elem", sym)
+        if sym is None:
+            for g in e.generators:
+                self.ev(g.iter)
+                self.bind(g.target, None, e, None)  # type: ignore[arg-type]
+        self._loopdepth.append((sym, e))
         v = self.ev(e.elt)
+        if sym is not None:
+            fake = ast.Call(func=ast.Name(id="append", ctx=ast.Load()), args=[e.elt], keywords=[])
+            fake = self._comp_calls.setdefault(id(e), fake)
+            v = self.on_append(fake, v)
+        self._loopdepth.pop()
         self.env = saved
-        return ListV([], template=(None, v))
+        return ListV([], template=(sym, v))
 
     # -- attributes -------------------------------------------------------------------------------
     def ev_attr(self, e: ast.Attribute):
@@ -1018,6 +1073,12 @@ class KI:
             except Exception:
                 return None
             return None
+        if isinstance(l, ListV) and isinstance(r, ListV) and isinstance(op, ast.Add):
+            if l.template is None and r.template is not None and not r.items:
+                return ListV(list(l.items), r.template)
+            if l.template is None and r.template is None:
+                return ListV(list(l.items) + list(r.items))
+            return None
         if isinstance(l, Dims) or isinstance(r, Dims):
             return self.dims_binop(l, r, op)
         if isinstance(op, (ast.Mult, ast.MatMult)) and (isinstance(l, Mat) or isinstance(r, Mat)):
@@ -1180,9 +1241,45 @@ class KI:
             return h(c, argv)
         if name in self.tuple_returning and isinstance(f, ast.Name):
             return self.tuple_returning[name](self, c, argv)
+        if isinstance(f, ast.Name) and name.startswith("_") and self._depth < 2 and self.interp_private:
+            r = self.call_private(c, name, argv)
+            if r is not NotImplemented:
+                return r
         for k in c.keywords:
             self.ev(k.value)
         return None
+
+    def call_private(self, c: ast.Call, name: str, argv):
+        """interpret a call of a private same-module function (one that normalise could not inline, e.g. inside a
+        comprehension): parameters bound to the argument values, body run by this interpreter"""
+        mod = MODS.get(self.where.split(":")[0])
+        fd = mod.get(name) if mod is not None else None
+        if not isinstance(fd, ast.FunctionDef) or fd.args.vararg or fd.args.kwarg or any(isinstance(a, ast.Starred) for a in c.args):
+            return NotImplemented
+        params = [a.arg for a in fd.args.args]
+        bound = dict(zip(params, argv))
+        for k in c.keywords:
+            if k.arg in params:
+                bound[k.arg] = self.ev(k.value)
+        defaults = dict(zip(params[len(params) - len(fd.args.defaults):], fd.args.defaults))
+        saved_env, saved_ret, saved_locals = self.env, self.returns, self.locals_
+        self.env = {p_: bound[p_] if p_ in bound else (self.ev(defaults[p_]) if p_ in defaults else None) for p_ in params}
+        self.returns = []
+        self.locals_ = {n.id for n in ast.walk(fd) if isinstance(n, ast.Name) and isinstance(n.ctx, ast.Store)}
+        self._depth += 1
+        try:
+            self.run(fd.body)
+            rets = [v for _s, v in self.returns]
+            self.callee_env[name] = (fd, dict(self.env))
+        finally:
+            self._depth -= 1
+            self.env, self.returns, self.locals_ = saved_env, saved_ret, saved_locals
+        if not rets:
+            return Opaque("none")
+        out = rets[0]
+        for v in rets[1:]:
+            out = out if out == v else self.join({"r": out}, {"r": v}, c).get("r")
+        return out
 
     def ev_method(self, c: ast.Call, recv, name):
         if isinstance(recv, GridV):
@@ -1236,7 +1333,8 @@ class KI:
                 shp = c.args[0] if len(c.args) == 1 else ast.Tuple(elts=[a for a in c.args], ctx=ast.Load())
                 return self.reshape(c, recv, shp, self.order_of(c, 99))
             if name == "transpose" and not c.args:
-                return replace(recv, axes=tuple(reversed(recv.axes)) if recv.axes is not None else None, ident=None)
+                return replace(recv, axes=tuple(reversed(recv.axes)) if recv.axes is not None else None,
+                               ident=("T", recv.ident) if recv.ident is not None else None)
             if name == "sort":
                 ax = kwarg(c, "axis") or (c.args[0] if c.args else None)
                 base = c.func.value  # type: ignore[attr-defined]
@@ -1543,12 +1641,39 @@ class KI:
             return Arr(vk, (("pos", tot), last), None)
         return Arr(vk, None, None)
 
+    def _templated(self, lv) -> Optional[Arr]:
+        """np.hstack([x0, ...] + [piece(k) for k in range(T)]): x0 ++ T blocks of piece along the last axis"""
+        if not (isinstance(lv, ListV) and lv.template is not None and lv.template[0] is not None and lv.template[0] in self.loops):
+            return None
+        sym, piece = lv.template
+        if not isinstance(piece, Arr) or piece.axes is None or not all(isinstance(x, Arr) for x in lv.items):
+            return None
+        lo, hi, _n = self.loops[sym]
+        z = size_of(piece.axes[-1])
+        if z is None or sym in z.free_symbols:
+            return None
+        rep_ax = flat_prod([("pos", sp.expand(hi - lo)), piece.axes[-1]])
+        block = Arr(piece.vk, tuple(piece.axes[:-1]) + (rep_ax,), None, piece.flags & {"signed", "unsigned", "bool"})
+        return self._cat_last(list(lv.items) + [block])
+
     def f_hstack(self, c, argv):
+        if argv and isinstance(argv[0], ListV) and argv[0].template is not None:
+            return self._templated(argv[0])
         it = self._seq_items(c, argv)
         return self._cat_last(it) if it is not None else None
 
     def f_concatenate(self, c, argv):
         ax = kwarg(c, "axis") or (c.args[1] if len(c.args) > 1 else None)
+        if argv and isinstance(argv[0], ListV) and argv[0].template is not None:
+            t_ = self._templated(argv[0])
+            if t_ is None or t_.axes is None:
+                return t_
+            axv0 = self.ev(ax) if ax is not None else None
+            if ax is None and len(t_.axes) == 1:
+                return t_
+            if isinstance(axv0, Int) and axv0.p.is_Integer and int(axv0.p) % len(t_.axes) == len(t_.axes) - 1:
+                return t_
+            return Arr(t_.vk, None, None)
         it = self._seq_items(c, argv)
         if it is None:
             return None
@@ -2038,11 +2163,14 @@ META = {
         "partition_coordinates can never fire); partition_grid appends grid / face map / node map to the lists it returns in that order. "
         "R7 overlap: each criterion arm loops exactly num_layers times; entity and cell activations are typed (matrix column space = "
         "space of the multiplied indicator, stores use indices of the stored array's space); a `> 0` threshold is only applied to "
-        "products of sign-free matrices; the returned index set is a "
+        "products of sign-free matrices; inside the layer loop the active cell set keeps its previous members (in-place truthy stores or an "
+        "explicit union - re-binding it to the cells reached through the activated nodes/faces drops the cells of a 0-d grid, which have "
+        "neither); a sign-free incidence rebuilt from the index arrays of a grid matrix is given that matrix' shape (nothing can be inferred "
+        "for a grid without faces); the returned index set is a "
         "proper 1-d array for every size (today np.sort(np.squeeze(argwhere)) fails for a single cell). "
         "R8 grid_is_connected restricts cell_connection_map with the same selection on rows and columns. "
         "R9 subgrid_to_grid_mapping: row/column index arrays and the shape slots of the four maps agree in space and size. "
-        "Not decided: monotone growth of the overlap (a graph fact: every cell touches one of its own nodes/faces), values of recomputed geometry, the incidence signs/orientation built by the face-extraction helpers, "
+        "Not decided: values of recomputed geometry, the incidence signs/orientation built by the face-extraction helpers, "
         "metis, connectedness of partitions, floating point coverage of the coordinate boxes, determine_coarse_dimensions."),
     "rule_text": "one obligation per typed gather/product/constructor/field copy/returned map/arm/dimension/consumer site",
     "trusted_base": ["python ast", "sa.core", "sa.rules.c34.normalise (private same-module helpers inlined, up to two levels)", "sympy as term normaliser",
@@ -2373,6 +2501,7 @@ class _PS(KI):
     def __init__(self, *a, **k):
         super().__init__(*a, **k)
         self.appended: list = []
+        self.interp_private = True
 
     def on_append(self, c: ast.Call, v):
         sym = self._loopdepth[-1][0] if self._loopdepth else None
@@ -2397,6 +2526,20 @@ def _range_of_direction_index(ctx: Ctx, mod, q: str, fn: ast.FunctionDef, ki: "_
     cart = sp.IndexedBase(f"cart_{gname}", integer=True, positive=True)
     F, C = cart[sym], _CO[sym]
     cons = "per-direction coarse index takes at most coarse_dims[i] values"
+    env_here = None
+    pm = ki.pm
+    a0 = call.args[0]
+    if isinstance(a0, ast.Call) and isinstance(a0.func, ast.Name) and a0.func.id in ki.callee_env:
+        # the per-direction computation lives in a private helper: analyse its body, in the environment of that call
+        fd, env_here = ki.callee_env[a0.func.id]
+        rets_ = [r for r in walk_local(fd) if isinstance(r, ast.Return) and r.value is not None]
+        if len(rets_) != 1:
+            raise Undecided(f"{PART}:{q}: helper {a0.func.id} has {len(rets_)} returns")
+        loop = fd
+        pm = parent_map(fd)
+        call = ast.Call(func=ast.Name(id="append", ctx=ast.Load()), args=[rets_[0].value], keywords=[])
+        ast.copy_location(call, rets_[0])
+        ast.fix_missing_locations(call)
 
     def defs(name: str) -> list:
         return [s for s in ast.walk(loop) if isinstance(s, ast.Assign) and len(s.targets) == 1 and isinstance(s.targets[0], ast.Name)
@@ -2411,7 +2554,14 @@ def _range_of_direction_index(ctx: Ctx, mod, q: str, fn: ast.FunctionDef, ki: "_
         return e
 
     def intval(e: ast.expr):
-        v = ki.ev(e)
+        if env_here is not None:
+            saved, ki.env = ki.env, env_here
+            try:
+                v = ki.ev(e)
+            finally:
+                ki.env = saved
+        else:
+            v = ki.ev(e)
         return v.p if isinstance(v, Int) else None
 
     A = resolve(call.args[0])
@@ -2475,7 +2625,7 @@ def _range_of_direction_index(ctx: Ctx, mod, q: str, fn: ast.FunctionDef, ki: "_
     if len(pdefs) == 2:
         d1 = pdefs[1]
         sl = d1.value.slice if isinstance(d1.value, ast.Subscript) and isinstance(d1.value.value, ast.Name) and d1.value.value.id == P else None
-        par = ki.pm.get(d1)
+        par = pm.get(d1)
         guard = None
         if isinstance(par, ast.If) and any(d1 is x for x in par.body) and not par.orelse and isinstance(par.test, ast.Compare) \
                 and len(par.test.ops) == 1 and isinstance(par.test.ops[0], ast.Gt):
@@ -2865,6 +3015,41 @@ def rule_overlap(ctx: Ctx, mod) -> None:
         raise Undecided(f"{PART}:{q}: cannot type the returned array")
     ctx.check("R7", isinstance(rv, Arr) and rv.vk == E(gname, "C"), mod, q, rs,
               f"the function must return cell indices of {gname} (found {fmt_val(rv)})", construct="returned array holds cell indices")
+    # an incidence rebuilt from (data, indices, indptr) of a grid matrix must be given that matrix' shape
+    for c_, fmt_, m_, facts_ in ki.ctors:
+        if facts_.get("kind") == "compressed" and facts_.get("owner") is not None:
+            ctx.check("R7", facts_.get("shape") is not None, mod, q, c_,
+                      f"`{u(c_)[:70]}` rebuilds the incidence from the index arrays of {fmt_ident(origin(facts_['owner'].mid))} without `shape=`: scipy infers the "
+                      f"number of rows from the largest index present and cannot infer anything for a grid without faces (PointGrid: "
+                      f"overlap(point_grid, [0], 1, criterion='face') raises ValueError('unable to infer matrix dimensions'))",
+                      construct="rebuilt incidence matrix is given the shape of the original")
+    # the active set keeps its previous members: in-place truthy stores or an explicit union.  (Re-binding it to the cells found
+    # through the activated nodes/faces is NOT a superset: a cell of a 0-d grid has neither nodes nor faces and is dropped.)
+    for sym, (lo, hi, node) in ki.loops.items():
+        bad = None
+        for s_ in ast.walk(node):
+            if isinstance(s_, ast.Assign) and any(isinstance(t, ast.Name) and t.id == A for t in s_.targets):
+                v = s_.value
+                uses_old = A in {n.id for n in ast.walk(v) if isinstance(n, ast.Name)}
+                union = (isinstance(v, ast.BinOp) and isinstance(v.op, ast.BitOr) and A in {getattr(v.left, "id", None), getattr(v.right, "id", None)}) or \
+                    (isinstance(v, ast.Call) and call_name(v) in ("logical_or", "maximum") and any(isinstance(a_, ast.Name) and a_.id == A for a_ in v.args))
+                if union:
+                    continue
+                if uses_old and not (isinstance(v, ast.Compare) or isinstance(v, ast.BinOp)):
+                    raise Undecided(f"{PART}:{q}: update `{u(s_)[:70]}` of the active set not recognised")
+                bad = s_
+            if isinstance(s_, ast.AugAssign) and isinstance(s_.target, ast.Name) and s_.target.id == A and not isinstance(s_.op, (ast.BitOr, ast.Add)):
+                bad = s_
+        for s_, base, bval, ivals, v, aug in ki.sub_stores:
+            if base == A and any(s_ is x for x in ast.walk(node)):
+                falsy = (isinstance(v, Int) and v.p == 0) or (isinstance(v, Opaque) and v.what == "bool" and v.info is False)
+                if falsy:
+                    bad = s_
+        ctx.check("R7", bad is None, mod, q, bad or node,
+                  f"an overlap layer must contain the previous cell set; `{u(bad)[:80] if bad else ''}` replaces the active set by the cells reached through the "
+                  f"activated nodes/faces, which drops every cell that has no node/face of its own (a PointGrid cell: overlap(point_grid, [0], 1) returns an "
+                  f"empty set instead of [0]) - store into the set in place or take the union with it",
+                  construct="active cell set keeps its previous members in the layer loop")
     arms = [s for s in ast.walk(fn) if isinstance(s, ast.If) and "criterion" in u(s.test)]
     if arms and not any(isinstance(x, ast.Raise) for a in arms for x in ast.walk(a)):
         ctx.note("overlap: an unknown `criterion` falls through both arms and silently returns the input cells (no else: raise)")
@@ -2948,6 +3133,7 @@ def guarded(ctx: Ctx, rule, *args) -> None:
 
 def run(ctx: Ctx) -> None:
     mod = ctx.repo.module(PART)
+    MODS[mod.rel] = mod
     for rule in (rule_extract_subgrid, rule_extract_submatrix, rule_face_siblings, rule_partition_structured, rule_partition_coordinates,
                  rule_consumers, rule_overlap, rule_connected, rule_subgrid_mapping):
         guarded(ctx, rule, mod)
@@ -2958,6 +3144,15 @@ def _m(name, old, new, rule, control=False, count=1):
 
 
 MUTANTS = [
+    # independently seeded changes (campaign of the coordinator)
+    dict(name="seed-cell-volumes-in-request-order-next-to-sorted-copy", rule="R1", file=PART, edits=[
+        dict(file=PART, old="    if sort:\n        c = np.sort(np.atleast_1d(c))\n\n    if faces:\n        return _extract_cells_from_faces(g, c, is_planar)\n",
+             new="    c = np.atleast_1d(c)\n    ind = np.sort(c) if sort else c\n\n    if faces:\n        return _extract_cells_from_faces(g, ind, is_planar)\n"),
+        dict(file=PART, old="_extract_submatrix(g.cell_faces.tocsc(), c)", new="_extract_submatrix(g.cell_faces.tocsc(), ind)"),
+        dict(file=PART, old="h.cell_centers = g.cell_centers[:, c]", new="h.cell_centers = g.cell_centers[:, ind]"),
+        dict(file=PART, old="    h.parent_cell_ind = c\n", new="    h.parent_cell_ind = ind\n")]),
+    _m("seed-overlap-active-set-rebound", "            # Map back to new cells\n            ci_new = np.squeeze(np.where((cn.transpose() * active_nodes) > 0))\n            # Activate new cells.\n            active_cells[ci_new] = 1\n",
+       "            active_cells = (cn.transpose() * active_nodes) > 0\n", "R7"),
     # reverted forms of the applied fixes
     _m("revert-fix-2c57e785d-connectivity-tuple-as-truth", "            if not grid_is_connected(g, p_ind)[0]:", "            if not grid_is_connected(g, p_ind):", "R6", control=True),
     _m("revert-fix-9809e7416-coarse-index-range", "            incr_ind = incr_ind[: coarse_dims[i]]\n", "            incr_ind = incr_ind[:-1]\n", "R4", control=True),
